@@ -1153,7 +1153,7 @@ func BatchLenMonotoneRule(w *World, b *Backend, r *Result, rule string) {
 			if !calls || h == lenSet {
 				continue
 			}
-			m := regexp.MustCompile(`(?i)call :`+regexp.QuoteMeta(lenSet)+` \S+ !?(\w+)!?`).FindStringSubmatch(t)
+			m := regexp.MustCompile(`(?i)call :` + regexp.QuoteMeta(lenSet) + ` \S+ !?(\w+)!?`).FindStringSubmatch(t)
 			if m == nil {
 				continue
 			}
